@@ -516,6 +516,43 @@ class Arm(Machine):
             v = (a - b) & 0xFFFFFFFF
             self.setnz(v)
             self.c = 1 if a >= b else 0
+        elif mn in ("tst", "teq"):
+            a, b = self.rd(self.reg(o[0]), here), self.op2(o[1:], here)
+            self.setnz((a & b if mn == "tst" else a ^ b) & 0xFFFFFFFF)
+        elif mn in ("rsb", "rsbs", "orn", "orns", "asr", "asrs"):
+            # instructions of the same cores that the checked-in files happen not to use
+            bm = mn.rstrip("s") if mn not in ("asr",) else mn
+            if len(o) == 2:
+                o = [o[0], o[0], o[1]]
+            a = self.rd(self.reg(o[1]), here)
+            if bm == "asr":
+                t = o[2].strip()
+                n = (self.imm(t) if t.startswith("#") else R[self.reg(t)]) & 0xFF
+                sa = a - (1 << 32) if a >> 31 else a
+                v = (sa >> min(n, 31)) & 0xFFFFFFFF
+            else:
+                b = self.op2(o[2:], here)
+                v = ((b - a) if bm == "rsb" else (a | ~b)) & 0xFFFFFFFF
+            R[self.reg(o[0])] = v
+            if mn.endswith("s") and mn != "asr":
+                self.setnz(v)
+        elif mn in ("uxtb", "uxth", "rev", "nop"):
+            if mn != "nop":
+                a = self.rd(self.reg(o[1]), here)
+                R[self.reg(o[0])] = (a & 0xFF) if mn == "uxtb" else (a & 0xFFFF) if mn == "uxth" else int.from_bytes(a.to_bytes(4, "little"), "big")
+        elif mn in ("movw", "movt"):
+            v = self.imm(o[1]) & 0xFFFF
+            d = self.reg(o[0])
+            R[d] = v if mn == "movw" else (R[d] & 0xFFFF) | (v << 16)
+        elif mn in ("cbz", "cbnz"):
+            if (self.rd(self.reg(o[0]), here) == 0) == (mn == "cbz"):
+                return self.jump_label(o[1], here)
+        elif mn in ("ldrb", "ldrh", "strb", "strh"):
+            size = 1 if mn.endswith("b") else 2
+            if mn.startswith("ld"):
+                R[self.reg(o[0])] = self.load(self.memaddr(",".join(o[1:]), here), size)
+            else:
+                self.store(self.memaddr(",".join(o[1:]), here), size, R[self.reg(o[0])] & ((1 << (8 * size)) - 1))
         elif mn in ("beq", "bne", "bhi", "bls", "bhs", "blo"):
             cond = {"beq": self.z == 1, "bne": self.z == 0, "bhi": self.c == 1 and self.z == 0, "bls": self.c == 0 or self.z == 1, "bhs": self.c == 1, "blo": self.c == 0}[mn]
             if cond:
